@@ -199,6 +199,10 @@ finding(
     "P73", ["C19"], "fixed", "gen --parse infer on a JSON-schema file raises NotImplementedError (the file is loaded for 'infer', but infer() rejects the loaded dict)", "c8f70e4",
     witnesses={"C19": [{"emit": "function", "existing": False, "in": "json", "infer": False, "irs": [{"doc": "The foo.", "kinds": ["int", "optstr"], "name": "Foo", "params": [["alpha", {"default": 5, "doc": "the a", "typ": "int"}], ["beta", {"doc": "the b", "typ": "Optional[str]"}]], "returns": None}], "kinds_in": ["json"], "names": ["Foo"], "parse": "infer", "prepend": None, "tpl": "{name}"}]},
 )
+finding(
+    "P74", ["C14"], "fixed", "json_schema parser on an ordinary hand-written schema: the keywords `nullable` (optional property), `format` and `items` stay behind as extra keys of the parameter entry", "77f426c",
+    witnesses={"C14": [{"kind": "json-handshaped", "schema": {"$id": "https://x/foo.schema.json", "type": "object", "properties": {"p": {"default": 0, "nullable": True, "type": "array"}, "q": {"type": "string", "format": "date-time"}, "s": {"type": "array", "items": {"type": "integer"}}}}}]},
+)
 finding("P26", ["C07"], "open", "doctrans drops comments inside a rewritten multi-line def header")
 finding("P27", ["C07"], "open", "doctrans turns a one-line `def f(a=1): return a` into invalid Python")
 finding("P28", ["C07"], "open", "doctrans does not recognise a raw docstring r\"\"\"...\"\"\": a second string is inserted")
